@@ -78,7 +78,8 @@ def classify(diag):
 VC_PAT = re.compile(r'(postcondition not satisfied|precondition not satisfied|assertion failed|invariant not satisfied|'
                     r'decreases not satisfied|could not prove termination|possible arithmetic underflow/overflow|'
                     r'possible division by zero|possible bit shift underflow/overflow|'
-                    r'assertion not satisfied|not satisfied|unable to prove (post|pre)-?condition|unable to prove)')
+                    r'assertion not satisfied|not satisfied|unable to prove (post|pre)-?condition|unable to prove|'
+                    r'precondition not met|index in bounds)')
 
 
 KIND_MAP = [
